@@ -419,7 +419,7 @@ def c07_arm_matrix(tier, mi):
     """The same question across the macro's arm matrix: every `times` arm of the safe / unsafe fn kinds is
     evaluated by two or three lifetimes from one source line (E4 programs); later lifetimes must behave like first ones."""
     import e4
-    viols, cov = e4.c08(tier, mi)
+    viols, cov = e4.c08(tier, mi, only_arms=True)
     mine = [dict(v, args=["c08"]) for v in viols if "later-lifetime" in v["key"]]
     return mine, {"states": 0, "arm_matrix_runs": cov["runs"], "arm_matrix_arms": cov["distinct_arms"]}, [
         "arm matrix: generated programs (one per fake! arm) re-evaluate the arm's source line in a loop of lifetimes; compiled against the unmodified crate"]
@@ -444,6 +444,27 @@ def c06_concurrent(tier, mi):
     return viols, cov, E2_ASSUME + ["symmetry reduction (8/16 identical single-call threads): a choice between not-yet-started threads with identical bodies considers the lowest id only; the oracle is a function of the multiset of per-thread observations"]
 
 
+def c06_arm_matrix(tier, mi):
+    """The sequential accounting across the macro's arm matrix: every `times` arm (all function kinds) is driven
+    through every call script up to N+2 calls in its own process (E4 programs), with the crate in the dev and in
+    the release configuration and the program compiled with and without debug assertions; per-call admission and
+    the scope-exit verdict of first lifetimes are C06's."""
+    import e4
+    viols, cov = e4.c08(tier, mi, only_arms=True)
+    mine = [dict(v, args=["c08"]) for v in viols if "_times" in v["key"].split(":")[1] + "_" and "later-lifetime" not in v["key"]
+            and any(k in v["key"] for k in ("when-or-times-verdict", "scope-exit-verdict"))]
+    return mine, {"arm_matrix_runs": cov["runs"], "arm_matrix_arms": cov["distinct_arms"]}, [
+        "arm matrix: generated programs (one per fake! arm), every call script up to N+2 calls for N in 0..2 (thorough 0..3), dev and release configuration"]
+
+
+def c06_extra(tier, mi):
+    v1, c1, a1 = c06_concurrent(tier, mi)
+    v2, c2, a2 = c06_arm_matrix(tier, mi)
+    cov = dict(c1)
+    cov.update(c2)
+    return v1 + v2, cov, a1 + a2
+
+
 BIG_BUDGETS = [255, 256, 257, 65535, 65536, 65537]
 
 
@@ -455,7 +476,7 @@ def big_runs(tier):
 
 def check_c06(tier):
     runs = times_runs(tier, [0, 1, 2, 3], 6, 8) + big_runs(tier)
-    return times_family("C06", tier, runs, ["a mismatch in the first lifetime of a fresh process is attributed to C06, in a later lifetime to C07"], extra=c06_concurrent)
+    return times_family("C06", tier, runs, ["a mismatch in the first lifetime of a fresh process is attributed to C06, in a later lifetime to C07"], extra=c06_extra)
 
 
 def c05_concurrent(tier, mi):
